@@ -328,7 +328,10 @@ pub fn self_ref_program(r: &mut Rng) -> Vec<u8> {
 /// one small motif repeated many times in straight-line code: values, keys and nesting that grow
 /// with the length of the program (native-stack depth, tree size, storage history length)
 pub fn repeated_motif_program(r: &mut Rng) -> Vec<u8> {
-    const MOTIFS: [&[u8]; 10] = [
+    const MOTIFS: [&[u8]; 13] = [
+        &[0x5f, 0x5f, 0x5f, 0xf5],                                        // x = create2(0, mem, salt = x)
+        &[0x5f, 0x5f, 0x82, 0xf0],                                        // create(value = x, mem)
+        &[0x5f, 0x5f, 0x5f, 0x5f, 0x84, 0x5a, 0xfa],                      // staticcall(gas, address = x, ...)
         &[0x54],                                                          // load from the loaded word
         &[0x60, 0x01, 0x55, 0x60, 0x01, 0x54, 0x5f, 0x55, 0x5f, 0x54],    // copy between two slots, re-loading
         &[0x80, 0x01],                                                    // x = x + x
